@@ -451,3 +451,42 @@ func CarriedAcross(v ssa.Value, at *ssa.BasicBlock, depth int) *ssa.Phi {
 	})
 	return found
 }
+
+// InnermostLoop returns the header and body of the smallest natural loop that contains block b (nil when b is in no loop).
+func InnermostLoop(b *ssa.BasicBlock) (*ssa.BasicBlock, map[*ssa.BasicBlock]bool) {
+	var best *ssa.BasicBlock
+	var bestBody map[*ssa.BasicBlock]bool
+	for _, h := range b.Parent().Blocks {
+		body := NaturalLoop(h)
+		if len(body) == 0 || !body[b] {
+			continue
+		}
+		if best == nil || len(body) < len(bestBody) {
+			best, bestBody = h, body
+		}
+	}
+	return best, bestBody
+}
+
+// OnEveryIteration reports whether instruction x, which sits in a loop, is executed on every iteration of its
+// innermost loop that goes round again: no path leads from the loop header back to the header without passing x.
+// The returned path (block indices) is a witness iteration that skips x.
+func OnEveryIteration(x ssa.Instruction) (bool, []int) {
+	h, body := InnermostLoop(x.Block())
+	if h == nil {
+		return false, nil
+	}
+	first := h.Instrs[0]
+	for _, s := range h.Succs {
+		if !body[s] {
+			continue
+		}
+		if x.Block() == h {
+			return true, nil
+		}
+		if hit, path := Search(Loc{B: s, Idx: 0}, Is(first), SearchOpt{Barrier: Is(x)}); hit != nil {
+			return false, path
+		}
+	}
+	return true, nil
+}
